@@ -1,6 +1,7 @@
 """C11 — peer wire encoding is protocol-exact and round-trips through the reader.
 
-spec/WireCodec.tla (reference codec), spec/Wire.tla (writer -> transport -> reader), MC_Wire (every fragmentation),
+spec/WireCodec.tla (reference codec), spec/Wire.tla (writer -> transport -> reader), MC_Wire (every fragmentation;
+MC_Wire_cut*: + the connection breaks inside any frame after any number of its bytes),
 WireGen (TLC prints encodings), Trace_Wire (judge); driver harness/c11.
 """
 import json, os, random, re, threading
@@ -231,6 +232,30 @@ def build_cases(ctx, scheds=()):
     wcases.append({"case": "w", "fast": True, "msgs": [bitfield(rng, pdata=[0xF0]), xhs(0, STD_M, "Rain 2.2.1", bytes([1, 2, 3, 4]), 12345, 250),
                                                        port(7246), idx("allowed_fast", 3), idx("allowed_fast", 9)]})
 
+    # ---- FAULT: the connection breaks while a frame is being written (Wire!SendCut): the transport takes only the first k
+    # bytes of the frame of message cut_at and the Write fails.  Mostly block frames (the upload counter must credit exactly the
+    # block bytes taken: k - 13), cut inside the header, on its last byte, inside the block, one byte before its end; also the
+    # reject that answers a duplicate request and frames without payload.
+    # NOT YET PROVEN QUIET on the unchanged tree (round 3 ran out of time under load): off unless VERIF_C11_CUT=1
+    for j in range(ctx.pick(90, 2500) if os.environ.get("VERIF_C11_CUT") else 0):
+        pre = [g.random_msg(False) for _ in range(rng.randrange(3))]
+        n = rng.choice([0, 1, 5, 100, 1000, 16383, 16384, 16384, 16384, rng.randrange(16385)])
+        blk = piece(rng, rng.randrange(4), rng.choice([0, 16384, 32768]), plen=n)
+        msgs = pre + [blk]
+        at = len(msgs) - 1
+        c = rng.randrange(10)
+        if c == 0:                                               # the duplicate of an earlier block is cut (a 17-byte reject)
+            msgs.append(dict(blk))
+            at += 1
+        elif c == 1 and pre:                                     # any other frame is cut
+            at = rng.randrange(len(pre))
+        elif c == 2:                                             # a second block behind a complete one
+            msgs.append(piece(rng, 5, 0, plen=rng.choice([1, 16384, rng.randrange(1, 16385)])))
+            at += 1
+        k = rng.choice([0, 1, 3, 4, 5, 12, 13, 14, 15, 13 + n // 2, 13 + rng.randrange(n + 1), -1, -2, -1 - rng.randrange(n + 1)])
+        wcases.append({"case": "w", "fast": rng.random() < 0.5, "msgs": msgs, "cut_at": at, "cut_k": k,
+                       "cut_err": rng.choice(["op", "plain"])})
+
     # ---- reader direction
     def add_stream(msgs, with_hs, modes):
         ms = []
@@ -405,6 +430,13 @@ def account(ctx, blocks):
                                   "what": "peerwriter answers a repeated request with a fast-extension reject (id 16) on a connection where the "
                                           "fast extension was NOT negotiated (BEP 6 allows reject only when both sides set the fast bit); "
                                           "outside the encoding property, reported as a lead only", "frame": a})
+            elif e["op"] == "Cut":
+                ctx.count_case(("wcut", msg_key(e["m"]), e["w"]["k"], e["w"]["n"], e.get("err")), True)
+                ctx.oblig("C11.frame")
+                ctx.extra["cut_writes"] = ctx.extra.get("cut_writes", 0) + 1
+                if e["m"]["k"] == "piece" and e["w"]["k"] > 13 and e["w"]["n"] > 17:
+                    ctx.extra["cut_writes_inside_block"] = ctx.extra.get("cut_writes_inside_block", 0) + 1
+                    ctx.oblig("C11.upcount.cut")
             elif e["op"] == "End":
                 ctx.oblig("C11.upcount")
             elif e["op"] == "Read":
@@ -463,6 +495,8 @@ def judge(ctx, tp, cases=None, max_violations=6):
             sig = "tag=%s op=Send k=%s plen=%s n=%s" % (tag, e["m"]["k"], e["m"].get("plen", 0), e["w"]["n"])
             if "sched" in e:                                     # concurrent handshakes: the interleaving and the connection
                 sig += " sched=%s conn=%s" % (e["sched"], e.get("conn"))
+        elif e.get("op") == "Cut":
+            sig = "tag=%s op=Cut k=%s plen=%s n=%s taken=%s err=%s" % (tag, e["m"]["k"], e["m"].get("plen", 0), e["w"]["n"], e["w"]["k"], e.get("err"))
         elif e.get("op") == "Read":
             got = [x["k"] for x in e["got"]]
             exp = [x["k"] for x in e["exp"]]
@@ -472,6 +506,9 @@ def judge(ctx, tp, cases=None, max_violations=6):
         else:
             sig = "tag=%s op=%s frames=%s sent=%s leftover=%s upl=%s wirepl=%s" % (tag, e.get("op"), e.get("frames"), e.get("sent"),
                                                                                   e.get("leftover"), e.get("upl"), e.get("wirepl"))
+            cutl = next((json.loads(x) for x in bad if '"op":"Cut"' in x), None)
+            if cutl:                                             # the connection broke inside a frame: which one, where
+                sig += " cut=%s/plen%s/n%s/taken%s/err-%s" % (cutl["m"]["k"], cutl["m"].get("plen", 0), cutl["w"]["n"], cutl["w"]["k"], cutl.get("err"))
         case = cases[e["ci"]] if cases is not None and isinstance(e.get("ci"), int) and e["ci"] < len(cases) else None
         fresh += 1 if ctx.violation(tag, sig, "real code contradicts %s: %s" % (tag, json.dumps(short(e, 12))[:400]),
                       {"case": case, "block": short([json.loads(x) for x in bad], 80), "line_in_block": pos,
@@ -506,6 +543,15 @@ def binding_selftest(ctx, tp):
                 m["index"][1] ^= 1
                 break
         tests.append(("C11.roundtrip", [e]))
+    # fault: a block whose frame was cut short, credited with its full length
+    cutb = next((b for b in blocks if any('"op":"Cut"' in x and '"k":"piece"' in x for x in b)), None)
+    if cutb:
+        evs = [json.loads(x) for x in cutb]
+        c = next(e for e in evs if e["op"] == "Cut")
+        if c["w"]["n"] > 17:
+            evs[-1]["upl"] = evs[-1]["upl"] - max(0, c["w"]["k"] - 13) + c["m"]["plen"]
+            evs[-1]["wirepl"] = evs[-1]["upl"]
+            tests.append(("C11.upcount", evs))
     # time: declare a tolerated expiry of a recorded slow-peer run as one the reader must not survive -> the full delivery is wrong
     slow = next((b for b in blocks if '"op":"Read"' in b[0] and '"chunk":"slow"' in b[0] and '"body":1' in b[0]), None)
     if slow:
@@ -554,6 +600,9 @@ def run(ctx):
     if not os.environ.get("VERIF_C11_NOMC") and not replay:                     # development switch (mutation runs): skip the design-level part
         # LEVEL 2 (thorough) is a superset of LEVEL 1 (quick)
         ctx.tlc_mc("MC_Wire", ctx.pick("MC_Wire.cfg", "MC_Wire_big.cfg"), timeout=ctx.pick(1500, 3000))
+        # FAULT: the connection breaks inside any frame after any number of its bytes (Wire!SendCut), every fragmentation
+        if os.environ.get("VERIF_C11_CUT"):
+            ctx.tlc_mc("MC_Wire", ctx.pick("MC_Wire_cut.cfg", "MC_Wire_cut_big.cfg"), timeout=ctx.pick(1500, 3000))
     # several connections at once: every interleaving of Build/Flush keeps every handshake exact; the interleavings are printed
     scheds = []
     if not replay:
